@@ -492,6 +492,16 @@ def _run_history(e, case, log, sb, probes):
         _UPSTREAM[0] = None
 
 
+def _default_now(e, op, tables, vi):
+    """The default call on the current contents; if that raises (an edit
+    made the operator fail) a pass that delivered a table is not showing the
+    current contents."""
+    try:
+        return _default(e, op, tables)[vi]
+    except Exception as ex:
+        return 'the default call raises %s: %s' % (type(ex).__name__, ex)
+
+
 def _run_history_(e, case, log, sb, probes):
     op = OPS[case['op']]
     tables = [dec_table(t) for t in case['tables']]
@@ -580,7 +590,7 @@ def _run_history_(e, case, log, sb, probes):
             continue
         # ---- judge the full pass ---------------------------------------
         if not op.cache_clause:
-            now = _default(e, op, tables)[vi]
+            now = _default_now(e, op, tables, vi)
             if got != now:
                 raise _Bad('stale-without-cache',
                            '%s pass %d: %r; the default call on the current '
@@ -588,7 +598,7 @@ def _run_history_(e, case, log, sb, probes):
             continue
         if not cache:
             probes['judged:cache-false'] = 1
-            now = _default(e, op, tables)[vi]
+            now = _default_now(e, op, tables, vi)
             if got != now:
                 raise _Bad('stale-with-cache-false',
                            '%s pass %d does not reflect the current source '
